@@ -72,7 +72,12 @@ func (m *valMap) UnmarshalJSON(b []byte) error {
 // A kindMap instantiates the model's attribute kinds with real kinds: the
 // non-bool base kinds are rotated by Shift, so that one abstract case is run
 // for every one of the 28 kinds over the variants.
-type kindMap struct{ Shift int }
+// kindMap: Shift rotates the attribute kinds; Rev lays the fields of a struct out in reverse order
+// (another Go type for the same JSON:API type name)
+type kindMap struct {
+	Shift int
+	Rev   bool
+}
 
 var nonBool = []int{
 	jsonapi.AttrTypeString,
@@ -153,8 +158,13 @@ var structCache = map[string]reflect.Type{}
 // structType declares, at run time, the struct a user would write for the type.
 func structType(name string, fields defMap, km kindMap) reflect.Type {
 	names := sortedKeys(fields)
+	if km.Rev {
+		for i, j := 0, len(names)-1; i < j; i, j = i+1, j-1 {
+			names[i], names[j] = names[j], names[i]
+		}
+	}
 	var key strings.Builder
-	fmt.Fprintf(&key, "%s|%d", name, km.Shift)
+	fmt.Fprintf(&key, "%s|%d|%v", name, km.Shift, km.Rev)
 	for _, f := range names {
 		fmt.Fprintf(&key, "|%s:%+v", f, fields[f])
 	}
